@@ -2,7 +2,10 @@ package main
 
 import (
 	"fmt"
+	"os"
+	"strconv"
 	"strings"
+	"unsafe"
 
 	"github.com/esimov/gogu/cache"
 )
@@ -33,32 +36,169 @@ const (
 
 var c07Names = []string{"Add", "Get", "GetOldest", "GetYoungest", "Remove", "RemoveOldest", "RemoveYoungest", "Flush"}
 
+// Instantiations.  The wire and both model layers speak integers; the SAME wire
+// history is also run on LRUCache[string, string] and LRUCache[c07SK, string]
+// through an injective codec int -> K / int -> V, and the observation is
+// decoded back to integers, so nothing on the model side changes.  The Go side
+// picks the instantiation from the nkeys word of the wire (to the model merely
+// the number of final lookups): nkeys = 6 -> string keys, nkeys = 7 -> struct
+// keys, anything else -> int (VERIF_C07_INSTANCE=int|string|struct overrides).
+// A failing case therefore replays and shrinks on the instantiation it failed on.
+//
+//	string key   k -> "k:" + decimal(k)                 zero value ""        -> 0
+//	struct key   k -> c07SK{K: k % 2, S: "s" + decimal(k / 2)}  (neither field
+//	             alone determines the key)              zero value c07SK{}   -> 0
+//	value        v -> "v=" + decimal(v)                 zero value ""        -> 0
+//
+// Every string is BUILT AT RUN TIME for every single use (c07Fresh: bytes
+// appended to a new buffer, then converted, always >= 2 bytes so that the
+// runtime's table of one-byte strings is never used): two equal keys never
+// share a backing array, so an implementation that compares keys or values by
+// address / raw memory instead of by == behaves differently here.  A string
+// the codec cannot parse decodes to -888888.
+type c07SK struct {
+	K int
+	S string
+}
+
+const (
+	c07InstInt = iota
+	c07InstString
+	c07InstStruct
+)
+
+var c07InstNames = []string{"int", "string", "struct"}
+
+// nkeys words that select an instantiation
+const (
+	c07NkString = 6
+	c07NkStruct = 7
+)
+
+func c07Fresh(prefix string, n int) string {
+	b := make([]byte, 0, 24)
+	b = append(b, prefix...)
+	b = strconv.AppendInt(b, int64(n), 10)
+	return string(b)
+}
+
+func c07Unfresh(prefix, s string) (int, bool) {
+	if s == "" {
+		return 0, true
+	}
+	if !strings.HasPrefix(s, prefix) {
+		return -888888, false
+	}
+	n, err := strconv.ParseInt(s[len(prefix):], 10, 64)
+	if err != nil {
+		return -888888, false
+	}
+	return int(n), true
+}
+
+type c07Codec[K comparable, V any] struct {
+	encK func(int) K
+	decK func(K) int
+	encV func(int) V
+	decV func(V) int
+}
+
+func c07IntCodec() c07Codec[int, int] {
+	id := func(x int) int { return x }
+	return c07Codec[int, int]{id, id, id, id}
+}
+
+func c07DecStr(prefix string) func(string) int {
+	return func(s string) int { n, _ := c07Unfresh(prefix, s); return n }
+}
+
+func c07StringCodec() c07Codec[string, string] {
+	return c07Codec[string, string]{
+		encK: func(k int) string { return c07Fresh("k:", k) },
+		decK: c07DecStr("k:"),
+		encV: func(v int) string { return c07Fresh("v=", v) },
+		decV: c07DecStr("v="),
+	}
+}
+
+func c07StructCodec() c07Codec[c07SK, string] {
+	return c07Codec[c07SK, string]{
+		encK: func(k int) c07SK { return c07SK{K: k % 2, S: c07Fresh("s", k/2)} },
+		decK: func(x c07SK) int {
+			if x == (c07SK{}) {
+				return 0
+			}
+			h, ok := c07Unfresh("s", x.S)
+			if !ok || x.S == "" || x.K < -1 || x.K > 1 {
+				return -888888
+			}
+			return 2*h + x.K
+		},
+		encV: func(v int) string { return c07Fresh("v=", v) },
+		decV: c07DecStr("v="),
+	}
+}
+
+func c07Instance(nkeys int) int {
+	switch os.Getenv("VERIF_C07_INSTANCE") {
+	case "int":
+		return c07InstInt
+	case "string":
+		return c07InstString
+	case "struct":
+		return c07InstStruct
+	}
+	switch nkeys {
+	case c07NkString:
+		return c07InstString
+	case c07NkStruct:
+		return c07InstStruct
+	}
+	return c07InstInt
+}
+
 func execC07(in []int64) []int64 {
+	nkeys := 0
+	if len(in) >= 2 {
+		nkeys = int(in[1])
+	}
+	switch c07Instance(nkeys) {
+	case c07InstString:
+		return runC07(in, c07StringCodec())
+	case c07InstStruct:
+		return runC07(in, c07StructCodec())
+	}
+	return runC07(in, c07IntCodec())
+}
+
+func runC07[K comparable, V any](in []int64, cd c07Codec[K, V]) []int64 {
 	r := &R{w: in}
 	capacity, nkeys := r.Int(), r.Int()
 	ops := r.Rest()
-	c, err := cache.NewLRU[int, int](capacity)
+	c, err := cache.NewLRU[K, V](capacity)
 	if err != nil {
 		return resErr(1)
 	}
 	out := []int64{0}
-	kvb := func(k, v int, ok bool) { out = append(out, int64(k), int64(v), b2i(ok), int64(c.Count())) }
-	vb := func(v int, ok bool) { out = append(out, int64(v), b2i(ok), int64(c.Count())) }
+	kvb := func(k K, v V, ok bool) {
+		out = append(out, int64(cd.decK(k)), int64(cd.decV(v)), b2i(ok), int64(c.Count()))
+	}
+	vb := func(v V, ok bool) { out = append(out, int64(cd.decV(v)), b2i(ok), int64(c.Count())) }
 	panicked := try(func() {
 		nops := len(ops) / 3
 		for i := 0; i+2 < len(ops); i += 3 {
 			k, v := int(ops[i+1]), int(ops[i+2])
 			switch ops[i] {
 			case c07Add:
-				kvb(c.Add(k, v))
+				kvb(c.Add(cd.encK(k), cd.encV(v)))
 			case c07Get:
-				vb(c.Get(k))
+				vb(c.Get(cd.encK(k)))
 			case c07GetOldest:
 				kvb(c.GetOldest())
 			case c07GetYoungest:
 				kvb(c.GetYoungest())
 			case c07Remove:
-				vb(c.Remove(k))
+				vb(c.Remove(cd.encK(k)))
 			case c07RemoveOldest:
 				kvb(c.RemoveOldest())
 			case c07RemoveYoungest:
@@ -82,8 +222,8 @@ func execC07(in []int64) []int64 {
 			out = append(out, -1)
 		}
 		for k := 0; k < nkeys; k++ {
-			v, ok := c.Get(k)
-			out = append(out, int64(v), b2i(ok))
+			v, ok := c.Get(cd.encK(k))
+			out = append(out, int64(cd.decV(v)), b2i(ok))
 		}
 		out = append(out, int64(c.Count()))
 	})
@@ -98,6 +238,9 @@ func describeC07(in []int64) string {
 		return "malformed"
 	}
 	var sb strings.Builder
+	if inst := c07Instance(int(in[1])); inst != c07InstInt {
+		fmt.Fprintf(&sb, "[%s keys] ", c07InstNames[inst])
+	}
 	fmt.Fprintf(&sb, "NewLRU(%d)", in[0])
 	for i := 2; i+2 < len(in); i += 3 {
 		code := in[i]
@@ -213,11 +356,14 @@ func c07Emit(g *Gen, stream string, capacity, nkeys int, ops []c07Op) {
 		g.Count("op:" + c07Names[o.code])
 	}
 	g.Count(fmt.Sprintf("%s:cap=%d", stream, capacity))
+	if inst := c07Instance(nkeys); inst != c07InstInt {
+		g.Count(stream + ":type=" + c07InstNames[inst])
+	}
 	switch stream {
-	case "random":
-	case "large":
-		g.Count("large:" + c07Bucket("len", len(ops)))
-		g.Count("large:" + c07Bucket("evictions", sh.evictions))
+	case "random", "instances-random":
+	case "large", "instances-long":
+		g.Count(stream + ":" + c07Bucket("len", len(ops)))
+		g.Count(stream + ":" + c07Bucket("evictions", sh.evictions))
 	default:
 		g.Count(fmt.Sprintf("%s:len=%d", stream, len(ops)))
 	}
@@ -605,6 +751,117 @@ func genC07Large(g *Gen) {
 	}
 }
 
+// ---------------------------------------------------------------------------
+// The "instances" streams: the wire histories on LRUCache[string, string] and
+// LRUCache[c07SK, string] (see the codec above execC07).
+//
+//	instances         capacities 1..3 x every call sequence of length <= 3
+//	                  (thorough 4) over the 14 calls {Add,Get,Remove} x keys 0..2
+//	                  + 5 key-less calls, and every sequence of length 4
+//	                  (thorough 5) with keys numbered by first use — exhaustive,
+//	                  both key types.  With struct keys 0 and 1 share the string
+//	                  field, 0 and 2 the int field, 1 and 2 nothing.
+//	instances-random  seeded 300-call histories, capacity 1..16, keys -3..24 and
+//	                  (one case in four, both types) the far-apart layout (19-digit strings)
+//	instances-long    the large stream's overflow-3x, reverse, update and mixed
+//	                  shapes at capacities 17 and 64 (thorough 256), dense and far
+func c07CodecSelfCheck(g *Gen) {
+	sc, tc := c07StringCodec(), c07StructCodec()
+	for _, k := range []int{0, 1, 2, 5, 10, -1, -2, -3, 99, 100, c07MaxKey, -c07MaxKey, 1000003} {
+		a, b := sc.encK(k), sc.encK(k)
+		x, y := tc.encK(k), tc.encK(k)
+		v, w := sc.encV(k), sc.encV(k)
+		if a != b || x != y || v != w || sc.decK(a) != k || tc.decK(x) != k || sc.decV(v) != k {
+			panic("C07 codec: not a round trip")
+		}
+		if unsafe.StringData(a) == unsafe.StringData(b) || unsafe.StringData(x.S) == unsafe.StringData(y.S) ||
+			unsafe.StringData(v) == unsafe.StringData(w) {
+			panic("C07 codec: two encodings of one key share their backing array")
+		}
+		g.Count("instances:codec-selfcheck(round trip, distinct backing arrays)")
+	}
+	if sc.decK("") != 0 || tc.decK(c07SK{}) != 0 || sc.decV("") != 0 {
+		panic("C07 codec: zero value does not decode to 0")
+	}
+}
+
+func genC07Instances(g *Gen) {
+	c07CodecSelfCheck(g)
+	const nk = 3
+	sel := []int{c07NkString, c07NkStruct}
+	fullLen := g.Pick(3, 4)
+	for n := 0; n <= fullLen; n++ {
+		for capacity := 1; capacity <= 3; capacity++ {
+			for _, nkeys := range sel {
+				c07Full(n, nk, func(ops []c07Op) { c07Emit(g, "instances", capacity, nkeys, ops) })
+			}
+		}
+	}
+	// one call longer with keys numbered by first use
+	for capacity := 1; capacity <= 3; capacity++ {
+		for _, nkeys := range sel {
+			c07Canonical(nil, fullLen+1, nk, func(ops []c07Op) { c07Emit(g, "instances", capacity, nkeys, ops) })
+		}
+	}
+	g.Exhaustive("instances")
+	// seeded random histories
+	rest := []int{c07GetOldest, c07GetOldest, c07GetYoungest, c07Remove, c07Remove, c07RemoveOldest, c07RemoveYoungest}
+	for i := 0; i < g.Pick(300, 3000); i++ {
+		capacity := 1 + g.Rng.Intn(16)
+		keyRange := capacity + 1 + g.Rng.Intn(25-capacity)
+		key := func(j int) int { return j - 3 }
+		if (i/2)%4 == 3 {
+			key = c07Far
+		}
+		wAdd := 30 + g.Rng.Intn(35)
+		wGet := 10 + g.Rng.Intn(25)
+		ops := make([]c07Op, 300)
+		for j := range ops {
+			x := g.Rng.Intn(100)
+			k := key(g.Rng.Intn(keyRange))
+			switch {
+			case x < wAdd:
+				ops[j] = c07Op{c07Add, k}
+			case x < wAdd+wGet:
+				ops[j] = c07Op{c07Get, k}
+			case g.Rng.Intn(40) == 0:
+				ops[j] = c07Op{c07Flush, 0}
+			default:
+				code := rest[g.Rng.Intn(len(rest))]
+				if code != c07Remove {
+					k = 0
+				}
+				ops[j] = c07Op{code, k}
+			}
+		}
+		c07Emit(g, "instances-random", capacity, sel[i%2], ops)
+	}
+	// long structured histories
+	caps := []int{17, 64}
+	if !g.Quick() {
+		caps = append(caps, 256)
+	}
+	for _, capacity := range caps {
+		for _, far := range []bool{false, true} {
+			key := c07Dense
+			if far {
+				key = c07Far
+			}
+			for _, s := range c07Shapes(3300) {
+				if !s.far {
+					continue
+				}
+				for _, nkeys := range sel {
+					b := newC07Builder(capacity, key)
+					s.build(b, g)
+					g.Count("instances-long:shape=" + s.name)
+					c07Emit(g, "instances-long", capacity, nkeys, b.ops)
+				}
+			}
+		}
+	}
+}
+
 func genC07(g *Gen) {
 	const nk = 5
 	// rejected capacities
@@ -700,6 +957,8 @@ func genC07(g *Gen) {
 	// structured long histories at large capacities (after everything else, so
 	// that the seeded streams above do not depend on it)
 	genC07Large(g)
+	// the same wire on LRUCache[string, string] and LRUCache[struct, string]
+	genC07Instances(g)
 }
 
 func init() {
@@ -714,6 +973,9 @@ func init() {
 			"overflow by 1, by capacity/2, by max(3 x capacity, 300) new keys (up to 3000 evictions in one history, thorough 5952); Get sweep youngest-to-oldest reversing the recency order then evictions, every-3rd and oldest-to-youngest sweeps; " +
 			"capacity+3 x GetOldest, RemoveOldest chain to empty (+2), refill, RemoveYoungest chain to empty (+2), refill; Flush in the middle and re-Add of the old keys; re-Add of every other present key, Remove of every 3rd, refill; " +
 			"seeded mixed calls on the full cache; keys dense 0.. and (capacity <= 300 in quick, < 2000 in thorough) far apart -(2^62-1)+j, 2^62-1-j, -1-j, 1000003*j; at capacity 1000 the quick tier runs the six dense non-random shapes. " +
+			"instances: the same wire on LRUCache[string,string] (nkeys word 6) and LRUCache[struct{K int; S string},string] (nkeys word 7) through an injective codec whose strings are built at run time for every use (equal keys never share a backing array; zero values decode to 0), observation decoded back to integers: " +
+			"capacities 1..3 x every sequence of length <= 3 (thorough 4) over 14 calls (keys 0..2) and every sequence of length 4 (thorough 5) with keys numbered by first use, both types; instances-random: 300 (thorough 3000) seeded 300-call histories, capacity 1..16, keys -3..21 or far apart; " +
+			"instances-long: overflow-3x, reverse, update, mixed at capacities 17, 64 (thorough 256), dense and far keys, both types. " +
 			"non-trivial = at least one eviction preceded by a Get/GetOldest hit that changed the recency order",
 		Exec:     execC07,
 		Gen:      genC07,
